@@ -3,9 +3,10 @@ import AmVerif.Gen.Archive
 import Driver.Util
 /-! Engines `src` (C04) and `dir` (C11): a tree, an archive member list, one opened source view,
 probes (`read`, `read_dir`, `exists`) and directory-asset loads. Zip and tar are indexed with the
-skeleton extracted from the current source (`Gen.Archive`). -/
+skeletons (`register_file`, `register_dir`, root registration) extracted from the current source,
+the file system answers with the extracted kind tests (`Gen.Archive`). -/
 namespace Driver.Src
-open AmVerif.Model.Source AmVerif.Model.ArchiveSkel Driver
+open AmVerif.Model.Source AmVerif.Model.ArchiveSkel AmVerif.Gen.Archive Driver
 
 structure St where
   tree : Tree := ⟨[], []⟩
@@ -74,10 +75,10 @@ def step (s : St) (ws : List String) : St × String :=
     | none => (s, "bad-op")
   | "s.open" :: kind :: _ =>
     let v? : Option View :=
-      if kind == "fs" then some (fsView s.tree)
+      if kind == "fs" then some (fsViewWith ⟨fsExistsChecksKind, fsReadNonFileNotFound, fsReadDirNonDirNotFound⟩ s.tree)
       else if kind == "emb" then some (viewOfIdx (embeddedFrom (embedTables s.tree)))
-      else if kind == "zip" then some (viewOfIdx (indexWith AmVerif.Gen.Archive.zipRegister s.members))
-      else if kind == "tar" then some (viewOfIdx (indexWith AmVerif.Gen.Archive.tarRegister s.members))
+      else if kind == "zip" then some (viewOfIdx (indexWith zipRegister zipRegisterDir zipCreateRegistersRoot s.members))
+      else if kind == "tar" then some (viewOfIdx (indexWith tarRegister tarRegisterDir tarCreateRegistersRoot s.members))
       else none
     match v? with
     | some v => ({ s with view := some v, cached := [] }, "ok")
